@@ -6,12 +6,41 @@ import (
 	"os"
 	"path/filepath"
 	"runtime"
+	"sync"
 	"time"
 
 	"github.com/superfly/litefs"
 	lfuse "github.com/superfly/litefs/fuse"
 	lhttp "github.com/superfly/litefs/http"
 )
+
+// page-op hook dispatch (litefs.VerifPageOp is a package variable)
+var pageOpMu sync.Mutex
+var pageOpHooks = map[*litefs.Store]func(db *litefs.DB, op string, pgno uint32) error{}
+
+func init() {
+	litefs.VerifPageOp = func(db *litefs.DB, op string, pgno uint32) error {
+		pageOpMu.Lock()
+		fn := pageOpHooks[db.Store()]
+		pageOpMu.Unlock()
+		if fn != nil {
+			return fn(db, op, pgno)
+		}
+		return nil
+	}
+}
+
+// SetPageOpHook installs a hook called at the entry of every database page
+// write and truncate performed by this node's LiteFS.
+func (n *Node) SetPageOpHook(fn func(db *litefs.DB, op string, pgno uint32) error) {
+	pageOpMu.Lock()
+	if fn == nil {
+		delete(pageOpHooks, n.Store)
+	} else {
+		pageOpHooks[n.Store] = fn
+	}
+	pageOpMu.Unlock()
+}
 
 // nodeExit is the panic sentinel used when LiteFS calls Store.Exit on a
 // harness goroutine (the real process would stop executing there).
@@ -52,6 +81,7 @@ type Node struct {
 
 	nextOwner uint64
 	OnExit    func(n *Node)
+	PreOpen   func(n *Node) // called after the Store is built, before Store.Open
 }
 
 // URL is the advertise URL of the node in the simulated network.
@@ -90,6 +120,9 @@ func (n *Node) Open() error {
 	n.Server = lhttp.NewServer(st, ":0")
 	n.Handler = n.Server.VerifHandler()
 	n.Exited, n.ExitCode, n.ExitImage = false, 0, ""
+	if n.PreOpen != nil {
+		n.PreOpen(n)
+	}
 	if err := st.Open(); err != nil {
 		n.K.Detach()
 		return err
@@ -117,7 +150,7 @@ func (n *Node) exit(code int) {
 			n.OnExit(n)
 		}
 	}
-	if r.Sched == nil || r.Sched.IsHarness() {
+	if goid() == r.driverID || (r.Sched != nil && r.Sched.IsHarness()) {
 		panic(nodeExit{code})
 	}
 	runtime.Goexit()
@@ -143,6 +176,7 @@ func (n *Node) Close() error {
 	if n.K != nil {
 		n.K.Detach()
 	}
+	n.SetPageOpHook(nil)
 	return err
 }
 
